@@ -408,6 +408,7 @@ impl BytecodeBuilder {
                 | Op::TemplateConcat { .. }
                 | Op::TaggedTemplate { .. }
                 | Op::GetPrivateField { .. }
+                | Op::HasPrivateField { .. }
                 | Op::SetPrivateField { .. }
                 | Op::DefinePrivateField { .. }
                 | Op::DefinePrivateMethod { .. }
